@@ -16,16 +16,16 @@ import (
 // oracle, for a function the deductive generator does not reach. It is reported separately in
 // the evidence, labelled bounded, and never counted among the discharged obligations.
 type boundedSpec struct {
-	Property    string            `json:"property"`
-	Name        string            `json:"name"`
-	What        string            `json:"what"`
-	Reason      string            `json:"reason"`
-	PkgDir      string            `json:"pkg_dir"`  // relative to the repository root
-	Template    string            `json:"template"` // relative to /verif
-	TestFunc    string            `json:"test_func"`
-	Bound       map[string]string `json:"bound"`       // tier -> stated bound
-	Env         map[string]map[string]string `json:"env"` // tier -> environment
-	TimeoutS    int               `json:"timeout_s"`
+	Property string                       `json:"property"`
+	Name     string                       `json:"name"`
+	What     string                       `json:"what"`
+	Reason   string                       `json:"reason"`
+	PkgDir   string                       `json:"pkg_dir"`  // relative to the repository root
+	Template string                       `json:"template"` // relative to /verif
+	TestFunc string                       `json:"test_func"`
+	Bound    map[string]string            `json:"bound"` // tier -> stated bound
+	Env      map[string]map[string]string `json:"env"`   // tier -> environment
+	TimeoutS int                          `json:"timeout_s"`
 }
 
 type boundedResult struct {
